@@ -149,7 +149,7 @@ def run(pid, tier, seed):
             elif c["tampered"] == 0:
                 if not (all(honest) and c["same_tpk"] and c["sk_on_poly"] and c["tpk_is_secret"] and c["sigs_verify"]):
                     hit("dkg_honest", c, "honest DKG through the public API: KeyGen rejected, or the stored threshold key / shares / "
-                        "aggregated signatures are inconsistent: %s n=%d t=%d" % (c["pkg"], c["n"], c["t"]))
+                        "aggregated signatures are inconsistent: %s n=%d t=%d participants=%s" % (c["pkg"], c["n"], c["t"], c.get("ids")))
             elif c["t"] < c["n"]:
                 if any(honest):
                     hit("dkg_miss", c, "KeyGen of an honest party accepted although party %d revealed a key off the polynomial: %s n=%d t=%d"
@@ -229,6 +229,8 @@ def run(pid, tier, seed):
         cross=dict(collections.Counter(
             ("honest" if c["tampered"] == 0 else "moved") + ("/t<n" if c["t"] < c["n"] else "/t=n") +
             ("/accepted" if c["accepted"] else "/rejected") for c in cases if c["kind"] == "cross")),
+        dkg_participant_sets_not_1_to_n=dict(collections.Counter(
+            "%s %s" % (c["pkg"], c.get("ids")) for c in cases if c["kind"] == "dkg" and c.get("ids") and c["ids"] != list(range(1, c["n"] + 1)))),
         dkg=dict(collections.Counter(
             ("honest" if c["tampered"] == 0 else "moved") + ("/t<n" if c["t"] < c["n"] else "/t=n") +
             ("/all honest parties accept" if all(a for i, a in enumerate(c["accepted"]) if i + 1 != c["tampered"]) else
